@@ -910,8 +910,13 @@ def check_deliveries(plan, world, cl, ctx, prop):
                       if e[2] == "c_write" and e[7] == m.cid and e[4] in ("OffsetCommit", "OffsetFetch")]
             answered = {(e[3], e[5][1]): (e[0], e[1]) for e in world.log.events
                         if e[2] == "c_recv" and isinstance(e[5], tuple)}
+            # (a pattern subscriber refreshes its metadata first - one round trip - and only
+            # then closes the gate: ensure_active_group, by design)
+            grace = 1e-3
+            if m.spec.get("pattern"):
+                grace += 4 * plan["cluster"]["lat"][1] + 2 * plan["cluster"].get("service_time", 0.0) + 0.002
             for d in m.deliveries:
-                lv = [e for e in leaves if e["seq"] < d[0] and e["t"] + 1e-3 < tdel.get(d[0], 0)]
+                lv = [e for e in leaves if e["seq"] < d[0] and e["t"] + grace < tdel.get(d[0], 0)]
                 if not lv:
                     continue
                 last = lv[-1]
@@ -921,7 +926,7 @@ def check_deliveries(plan, world, cl, ctx, prop):
                 for (wseq, conn, corr) in writes:
                     if wseq < last["seq"]:
                         a = answered.get((conn, corr))
-                        if a is None or (a[0] > last["seq"] and a[1] + 1e-3 >= tdel.get(d[0], 0)):
+                        if a is None or (a[0] > last["seq"] and a[1] + grace >= tdel.get(d[0], 0)):
                             busy = True
                             break
                 if busy:
